@@ -14,8 +14,9 @@
        and the schedules in which a run's writes all happen late are represented exactly.
   (ii) The save loop seen from one key: `storage.get` (value; a sorted set is an `Arc` to the live
        skip list), `storage.ttl`, and for a sorted set `skiplist.len()` then `range_by_rank` — four
-       read steps that client commands on the key can interleave with.  `atomicRead` is the switch
-       of the proposed repair (everything read under one lock).
+       read steps that client commands on the key can interleave with.  `atomic` is the switch
+       of the proposed repair (everything read under one lock), `itemsFirst` that of the smaller one
+       (sorted-set items materialised before their number is written).
   (iii) `boundedTrace`: the loader's allocations when `read_string` reads in bounded chunks
        (the switch of the proposed repair) instead of `vec![0u8; len]`.
 -/
@@ -277,8 +278,10 @@ def cmdStep (m : KM) (c : Cmd) : KM :=
 def recOf (v : Value) (ttl : Option Nat) : Rec :=
   ⟨v, if isZset v then some (zitems v).length else none, ttl⟩
 
-/-- one read step of the saver.  `atomic = true`: value, deadline and sorted-set members under one lock. -/
-def saverStep (atomic : Bool) (m : KM) : KM :=
+/-- one read step of the saver.  `atomic = true`: value, deadline and sorted-set members under one lock
+    (proposed repair).  `itemsFirst = true`: the sorted-set items are materialised BEFORE the length is
+    written, so the declared length is their number (smaller proposed repair). -/
+def saverStep (atomic itemsFirst : Bool) (m : KM) : KM :=
   match m.phase with
   | .start =>
     match m.cur with
@@ -292,7 +295,9 @@ def saverStep (atomic : Bool) (m : KM) : KM :=
       | none => none
     if isZset v then { m with phase := .gotTtl v ttl }
     else { m with phase := .done (some ⟨v, none, ttl⟩) }
-  | .gotTtl _ ttl => { m with phase := .gotLen ttl m.held.length }
+  | .gotTtl _ ttl =>
+    if itemsFirst then { m with phase := .done (some ⟨.zset m.held, some m.held.length, ttl⟩) }
+    else { m with phase := .gotLen ttl m.held.length }
   | .gotLen ttl len => { m with phase := .done (some ⟨.zset (m.held.take len), some len, ttl⟩) }
   | .done r => { m with phase := .done r }
 
@@ -300,11 +305,11 @@ inductive KEv where
   | saver
   | cmd (c : Cmd)
 
-def kstep (atomic : Bool) (m : KM) : KEv → KM
-  | .saver => saverStep atomic m
+def kstep (atomic itemsFirst : Bool) (m : KM) : KEv → KM
+  | .saver => saverStep atomic itemsFirst m
   | .cmd c => cmdStep m c
 
-def krun (atomic : Bool) (m : KM) (evs : List KEv) : KM := evs.foldl (kstep atomic) m
+def krun (atomic itemsFirst : Bool) (m : KM) (evs : List KEv) : KM := evs.foldl (kstep atomic itemsFirst) m
 
 def kinit (st : KeyState) : KM := ⟨st, [st], .start, [], false, false⟩
 
